@@ -74,8 +74,23 @@ def main():
         res["build_rc"] = rc
         if not a.skip_suite:
             rc, out = sh("go test -vet=off -count=1 ./... 2>&1", scratch)
-            failed = set(re.findall(r"^FAIL\s+(\S+)", out, re.M))
+            failed = set(re.findall(r"^FAIL[ \t]+(\S+)", out, re.M))
+            # timing-sensitive packages (pkg/ha, pkg/resilience, ...) fail under machine load: a package outside the
+            # baseline's failures is re-run alone (twice) before it counts
+            retried = {}
+            for pkg in sorted(failed - BASE_FAIL):
+                rel = "./" + pkg.split("/bng/", 1)[1] if "/bng/" in pkg else pkg
+                ok = False
+                for _ in range(2):
+                    rc2, _o = sh("go test -vet=off -count=1 %s 2>&1" % rel, scratch)
+                    if rc2 == 0:
+                        ok = True
+                        break
+                retried[pkg] = ok
+                if ok:
+                    failed.discard(pkg)
             res["suite_failed_pkgs"] = sorted(failed)
+            res["suite_retried_alone"] = retried
             res["suite_ok"] = failed <= BASE_FAIL
         checks = [c for c in a.checks.split(",") if c]
         res["checks"] = {}
